@@ -36,6 +36,16 @@ func pick(q, th int) int {
 	return q
 }
 
+// seedFromEnv returns the effective rapid seed chosen by the driver.
+func seedFromEnv() int64 {
+	var n int64
+	fmt.Sscan(os.Getenv("VERIF_SEED_EFFECTIVE"), &n)
+	if n == 0 {
+		n = 1
+	}
+	return n
+}
+
 // knownFindings maps a known-finding id to its description; read from the
 // committed known_findings.txt (path in VERIF_KNOWN). Never written.
 var knownFindings = map[string]string{}
